@@ -215,6 +215,22 @@ CLAIMED.update(
     }
 )
 
+CLAIMED.update(
+    {
+        "C33": (
+            "escape analysis + close-after-start must-pass on the pipe's sending end, must-pass/guard path queries in _restart, partition-representative evaluation of the budget adjustment, recursion guard in get_result, result-code table agreement between master, worker and client",
+            "Decides the structural clauses of 'never hangs, restarts bounded, success only if a worker delivered': the master's copy of the one-way pipe's sending end is closed "
+            "after process.start() on every path and never escapes (so a dead worker yields EOF); every path of _restart to _start_worker passes the adjustment by the crashed worker's "
+            "elapsed time and the `maximum_search_time <= 0` abort, in that order; the adjustment, evaluated by the checker's own evaluator over a boundary partition of (budget, elapsed) "
+            "including sub-second elapsed times, yields an int in [0, old budget) for every positive budget and leaves non-positive budgets untouched; get_result turns any receive "
+            "failure into the restart path, recurses only after a successful restart and otherwise returns ERROR; the master only builds ERROR/None results, the worker reports "
+            "run_pynguin()'s own code on the normal path only, the client has an arm for every WorkerReturnCode and no literal success. Wall-clock bounds are not decided.",
+            "Trusts the CFG builder and the evaluator sa/engine/peval.py (arithmetic, max/min/int/round/floor, comparisons, if/assign/return).",
+            "DESIGN.md §3 C33",
+        ),
+    }
+)
+
 NOT_APPLICABLE: dict[str, str] = {
     "C06": "Correctness of the post-dominator/CDG construction on every code object is functional correctness of a graph "
     "algorithm; no shape of the code implies it and no sound static argument in reach bounds 'all code objects'.",
